@@ -9,12 +9,106 @@ from .model import AnalysisError, FunctionInfo
 from .sym import Env, Poly, forward, sym_at, _sym
 
 
+_BASELINE = None
+
+
+def _baseline():
+    """qualified names of the functions that existed when the rules' reference normal forms were confirmed"""
+    global _BASELINE
+    if _BASELINE is None:
+        import json, os
+        p = os.path.join(os.path.dirname(os.path.abspath(__file__)), "baseline_functions.json")
+        try:
+            _BASELINE = set(json.load(open(p)))
+        except Exception:
+            _BASELINE = set()
+    return _BASELINE
+
+
+def _single_return(fn_node):
+    """(pre-assignments, return expression) of a straight-line helper: (docstring)? (NAME = EXPR)* `return EXPR`"""
+    body = [st for st in fn_node.body if not (isinstance(st, ast.Expr) and isinstance(st.value, ast.Constant) and isinstance(st.value.value, str))]
+    if not body or not isinstance(body[-1], ast.Return) or body[-1].value is None:
+        return None
+    pre = []
+    for st in body[:-1]:
+        if isinstance(st, ast.Assign) and len(st.targets) == 1 and isinstance(st.targets[0], ast.Name):
+            pre.append((st.targets[0].id, st.value))
+        elif isinstance(st, ast.AnnAssign) and isinstance(st.target, ast.Name) and st.value is not None:
+            pre.append((st.target.id, st.value))
+        else:
+            return None
+    return pre, body[-1].value
+
+
+def helper_resolver(f: FunctionInfo):
+    """resolve calls of one-line helpers -- methods of f's class called as self.h(..) / Class.h(..) / cls.h(..), or functions of
+    f's module -- to (parameter names, actual argument nodes, return expression); used to see through 'extract helper'"""
+    def resolve(call: ast.Call):
+        if call.keywords and any(k.arg is None for k in call.keywords):
+            return None
+        target = None
+        skip_self = False
+        fn = call.func
+        if isinstance(fn, ast.Attribute) and isinstance(fn.value, ast.Name) and f.cls is not None:
+            if fn.value.id in ("self", "cls") or fn.value.id == f.cls.name:
+                m = f.cls.lookup(fn.attr)
+                if m is None and fn.attr.startswith("__") and not fn.attr.endswith("__"):
+                    m = f.cls.lookup(fn.attr)
+                if m is not None and not isinstance(m.node, ast.Lambda):
+                    target = m
+                    skip_self = not m.is_static
+        elif isinstance(fn, ast.Name):
+            m = f.module.functions.get(fn.id)
+            if m is not None:
+                target = m
+        if target is None or target is f or target.fq in _baseline():
+            return None          # functions of the reference tree keep their names in normal forms; only newly extracted helpers are seen through
+        sr = _single_return(target.node)
+        if sr is None:
+            # branches allowed when the only return is the last top-level statement and there is no loop / try / with
+            body = target.node.body
+            rets = [x for x in ast.walk(target.node) if isinstance(x, ast.Return)]
+            bad = [x for x in ast.walk(target.node) if isinstance(x, (ast.For, ast.While, ast.Try, ast.With, ast.Raise, ast.Yield, ast.YieldFrom))]
+            if len(rets) == 1 and body and body[-1] is rets[0] and rets[0].value is not None and not bad:
+                sr = (None, (target.node, rets[0]))
+            else:
+                return None
+        pre, ret = sr
+        params = list(target.params)
+        if skip_self and params:
+            params = params[1:]
+        if any(isinstance(a, ast.Starred) for a in call.args) or len(call.args) > len(params):
+            return None
+        actual = {}
+        for pn, a in zip(params, call.args):
+            actual[pn] = a
+        for k in call.keywords:
+            if k.arg not in params or k.arg in actual:
+                return None
+            actual[k.arg] = k.value
+        # defaults
+        a_ = target.node.args
+        defs = dict(zip([x.arg for x in a_.args][len(a_.args) - len(a_.defaults):], a_.defaults))
+        for pn in params:
+            if pn not in actual:
+                if pn in defs:
+                    actual[pn] = defs[pn]
+                else:
+                    return None
+        # the helper must not read names other than its parameters / self / globals that mean the same everywhere
+        return [pn for pn in params], [actual[pn] for pn in params], ret, pre
+    return resolve
+
+
 class Roles:
     """Symbolic facts about one function body."""
 
     def __init__(self, f: FunctionInfo, rename: Optional[Dict[str, str]] = None):
         self.f = f
-        self.snaps = forward(f.node, Env(rename=rename or {}))
+        base = Env(rename=rename or {})
+        base.resolver = helper_resolver(f)
+        self.snaps = forward(f.node, base)
         self.stmts = list(statements(f.node))
 
     def at(self, stmt: ast.stmt, e: ast.AST) -> Poly:
@@ -95,6 +189,29 @@ class Roles:
                     b = self.at(st, n.value)
                     if base_text_pred(str(b)):
                         out.append((n, st, b, self.at(st, n.slice)))
+        if not out:
+            # the subscript may have moved into a newly extracted one-line helper: look through it
+            res = helper_resolver(self.f)
+            for st in self.stmts:
+                for n in _own_nodes(st):
+                    if isinstance(n, ast.Call):
+                        r = res(n)
+                        if r is None:
+                            continue
+                        params, actuals, ret, pre = r
+                        if pre is None:
+                            continue
+                        inner = Env(rename=self.snaps[id(st)].rename)
+                        inner.resolver = res
+                        for pn, a in zip(params, actuals):
+                            inner.values[pn] = self.at(st, a)
+                        for nm, ex in pre:
+                            inner.values[nm] = _sym(ex, inner)
+                        for m in ast.walk(ret):
+                            if isinstance(m, ast.Subscript) and isinstance(m.ctx, ast.Load) and not isinstance(m.slice, ast.Slice):
+                                b = _sym(m.value, inner)
+                                if base_text_pred(str(b)):
+                                    out.append((n, st, b, _sym(m.slice, inner)))
         return out
 
 
